@@ -21,7 +21,7 @@ def run(run):
             run.stream("c11", 100000, seed_offset=1, model="C10", env={"VERIF_CSVQ": str(csvq)}, timeout=3000)
     return run.finish(
         level="proof",
-        rule="10 procedure shapes (reads, FOR UPDATE, DML with auto-commit / COMMIT / ROLLBACK, CREATE TABLE followed by error or EXIT, missing table) x endings {plain, competing lock holder with --wait-timeout, signal at each (VerifPoint, occurrence) reached (quick: a seeded subset; thorough: all), signal after a random 1-12 ms}; 6 pre-load programs x 25 kinds of incorrect command line (main command and sub-commands); non-trivial = distinct (procedure, ending, exit code) signature",
+        rule="10 procedure shapes (reads, FOR UPDATE, DML with auto-commit / COMMIT / ROLLBACK, CREATE TABLE followed by error or EXIT, missing table) x endings {plain, competing lock holder with --wait-timeout, signal at each (VerifPoint, occurrence) reached (quick: a seeded subset; thorough: all), signal after a random 1-12 ms}; 6 pre-load programs x 25 kinds of incorrect command line (main command and sub-commands); non-trivial = distinct (procedure, ending, exit code) signature; ending placement matrix (harness/cmd/c11/placement.go, wrappers shared in harness/hc/placement.go): EXIT / EXIT <code> / a failing statement reached through every construct that runs a nested statement list (IF, ELSEIF, ELSE, CASE WHEN / ELSE, WHILE, WHILE IN, SOURCE, SOURCE inside IF / WHILE, a sourced file that sources another, EXECUTE of a string, PREPARE + EXECUTE, EXECUTE of a SOURCE) after a CREATE TABLE and two updates and before a further INSERT: law ending_from_nested_list_left_changes (the created table does not exist, every file is byte-identical, no control file, nothing behind the ending statement ran, exit status as documented) - 17 wrappers x 3 endings, one real process each",
         trusted_base=BASE_TRUST + ["extract/fsproto", "extract/cliproto", "OS signal delivery", "Go defer semantics"],
         checker_cmd="cd /verif/lean && lake build Csvq.Props.C11 && lake env lean <#print axioms for every theorem>",
     )
